@@ -127,6 +127,7 @@ CHECKS = {
     "C13": dict(
         title="Committee-run deployment converges, deploys exactly once, is idempotent",
         quick=dict(groups=[E("funds-exhaustive", "^TestC13FundsExhaustive$"), E("window-enumerated", "^TestC13WindowEnumerated$"), G("helpers-random", "^TestC13HelpersRandom$", 3000, 2),
+                           E("regressions", "^TestC13Regressions$", 5, timeout="20m"),
                            G("deploy-n1", "^TestC13Deploy$", 2, 1, env=dict(VERIF_C13_N="1"), shrinktime="5s", timeout="20m"),
                            G("deploy-n2", "^TestC13Deploy$", 2, 2, env=dict(VERIF_C13_N="2"), shrinktime="5s", timeout="20m"),
                            G("deploy-n3", "^TestC13Deploy$", 1, 3, env=dict(VERIF_C13_N="3"), shrinktime="5s", timeout="20m"),
@@ -134,9 +135,10 @@ CHECKS = {
                            G("deploy-churn", "^TestC13Deploy$", 1, 2, env=dict(VERIF_C13_N="4,5", VERIF_C13_SHAPE="churn"), shrinktime="5s", timeout="20m"),
                            G("deploy-expiry-churn", "^TestC13Deploy$", 1, 3, env=dict(VERIF_C13_N="4,5,6", VERIF_C13_SHAPE="expiry-churn"), shrinktime="5s", timeout="20m")]),
         thorough=dict(groups=[E("funds-exhaustive", "^TestC13FundsExhaustive$"), E("window-enumerated", "^TestC13WindowEnumerated$"), G("helpers-random", "^TestC13HelpersRandom$", 100000, 4),
-                              G("deploy-small", "^TestC13Deploy$", 8, 6, env=dict(VERIF_C13_N="1,2,3,4"), shrinktime="60s", timeout="120m"),
-                              G("deploy-large", "^TestC13Deploy$", 5, 6, env=dict(VERIF_C13_N="5,6,7"), shrinktime="60s", timeout="120m"),
-                              G("deploy-churn", "^TestC13Deploy$", 4, 3, env=dict(VERIF_C13_N="4,5,6,7", VERIF_C13_SHAPE="churn"), shrinktime="60s", timeout="120m"),
-                              G("deploy-expiry-churn", "^TestC13Deploy$", 4, 4, env=dict(VERIF_C13_N="4,5,6,7", VERIF_C13_SHAPE="expiry-churn"), shrinktime="60s", timeout="120m")]),
+                              E("regressions", "^TestC13Regressions$", 5, timeout="20m"),
+                              G("deploy-small", "^TestC13Deploy$", 20, 6, env=dict(VERIF_C13_N="1,2,3,4"), shrinktime="60s", timeout="120m"),
+                              G("deploy-large", "^TestC13Deploy$", 8, 6, env=dict(VERIF_C13_N="5,6,7"), shrinktime="60s", timeout="120m"),
+                              G("deploy-churn", "^TestC13Deploy$", 6, 4, env=dict(VERIF_C13_N="4,5,6,7", VERIF_C13_SHAPE="churn"), shrinktime="60s", timeout="120m"),
+                              G("deploy-expiry-churn", "^TestC13Deploy$", 5, 6, env=dict(VERIF_C13_N="4,5,6,7", VERIF_C13_SHAPE="expiry-churn"), shrinktime="60s", timeout="120m")]),
     ),
 }
